@@ -585,6 +585,40 @@ func (d *driver) errloc() {
 	if len(enabled) < len(faultKinds)/2 {
 		e.Inconclusive(fmt.Sprintf("only %d of %d fault kinds produce a diagnostic in a plain program", len(enabled), len(faultKinds)))
 	}
+	// matrix (the same whatever the seed): every runtime fault kind alone, at top level and in
+	// every kind of body called from another line, in the entry file and in a require'd file
+	{
+		g := &genState{r: e.Rand("errloc-matrix")}
+		var cases []*locCase
+		i := 0
+		for _, k := range faultKinds {
+			if !enabled[k] || d.q.faultOff(k) {
+				continue
+			}
+			for _, w := range append([]string{""}, wrapKinds...) {
+				for _, inc := range []bool{false, true} {
+					f := g.fault(k)
+					if f.Parse && (w != "" || inc) {
+						continue
+					}
+					mode := "zy"
+					if i%2 == 1 {
+						mode = "php"
+					}
+					p := &program{Mode: mode, Include: inc, Wrap: w, Fault: f,
+						Head: []chunk{{Kind: "assign-int", Text: "$m1 = 2;\n"}, {Kind: "echo", Text: "echo $m1;\n"}},
+						Tail: []chunk{{Kind: "echo", Text: "echo $m1;\n"}}}
+					msg := f.Nonce
+					if msg == "" {
+						msg = base[k]
+					}
+					cases = append(cases, &locCase{idx: i, p: p, msg: msg})
+					i++
+				}
+			}
+		}
+		d.judgeAll(cases, "matrix")
+	}
 	r := e.Rand("errloc")
 	n := e.Pick(3000, 30000)
 	var cases []*locCase
